@@ -4,4 +4,4 @@ From GoSecs Require Import Base.Decimal Sml.ErrPos Sml.Parser.
 Extraction Language OCaml.
 Extraction "c14_model.ml"
   Z.add Z.mul Z.opp Z.sub Z.div_eucl Z.of_N Z.to_N N.add N.mul N.div_eucl Z.eqb Z.ltb Z.leb Z.max
-  blen new_parse_error run_parse run_parse_one outcome_of final_meters cfg_current cfg_repaired.
+  blen new_parse_error run_parse run_parse_one outcome_of final_meters cfg_current cfg_repaired fuel_for_input.
